@@ -497,3 +497,76 @@ def loop_variable_used_after_loop(rep: Report, rule: str, funcs: Iterable[FuncIn
             elif report_ok:
                 rep.ok(rule, f"{f.short}: the targets of the inner loop over {norm(st.iter)[:30]} are not read after it", f.loc(st), function=f.qualname)
     return n
+
+
+def fact_holds(guards, text: str, value: bool = True) -> bool:
+    """`text` (normalised source of a Boolean expression) is known to be `value` on the path described by `guards`
+    (pairs (test node, outcome) from guards_dominating), whichever way the test was written: `if text:` / `if not text:`."""
+    from .index import norm
+
+    for t, o in guards:
+        te = t.ast if hasattr(t, "ast") else t
+        neg = False
+        while isinstance(te, ast.UnaryOp) and isinstance(te.op, ast.Not):
+            te, neg = te.operand, not neg
+        if norm(te) == text and (bool(o) != neg) == value:
+            return True
+    return False
+
+
+def dispatch_links(stmts) -> List[ast.If]:
+    """The links of a dispatch written as `if … elif … elif …` or, equivalently, as consecutive `if …: return/raise`
+    statements (no-else-return style), or any mixture: the If nodes in order, starting at the first `if` of `stmts`."""
+    def leaves(block) -> bool:
+        return bool(block) and isinstance(block[-1], (ast.Return, ast.Raise, ast.Continue, ast.Break))
+
+    out: List[ast.If] = []
+    seq = list(stmts)
+    k = next((j for j, st in enumerate(seq) if isinstance(st, ast.If)), None)
+    while k is not None and k < len(seq) and isinstance(seq[k], ast.If):
+        node = seq[k]
+        out.append(node)
+        while len(node.orelse) == 1 and isinstance(node.orelse[0], ast.If):
+            node = node.orelse[0]
+            out.append(node)
+        if node.orelse:
+            # a final else: the chain may continue inside it (else: if …) only in the elif form handled above
+            break
+        if not leaves(node.body):
+            break
+        k += 1
+    return out
+
+
+_POS = {ast.NotEq: ast.Eq, ast.IsNot: ast.Is, ast.NotIn: ast.In}
+
+
+def _atom_facts(te: ast.AST, outcome: bool, out: Set[Tuple[str, bool]]) -> None:
+    """Decompose a test taken with `outcome` into atomic facts (normalised text, truth value)."""
+    from .index import norm
+
+    if isinstance(te, ast.UnaryOp) and isinstance(te.op, ast.Not):
+        _atom_facts(te.operand, not outcome, out)
+        return
+    if isinstance(te, ast.BoolOp):
+        if (isinstance(te.op, ast.And) and outcome) or (isinstance(te.op, ast.Or) and not outcome):
+            for v in te.values:
+                _atom_facts(v, outcome, out)
+        return
+    if isinstance(te, ast.Compare) and len(te.ops) == 1 and type(te.ops[0]) in _POS:
+        pos = ast.Compare(left=te.left, ops=[_POS[type(te.ops[0])]()], comparators=te.comparators)
+        out.add((norm(pos), not outcome))
+        return
+    out.add((norm(te), outcome))
+
+
+def path_facts(cfg, node) -> Set[Tuple[str, bool]]:
+    """What is known at `node` whichever way the enclosing tests were written: atomic (text, value) facts from every
+    dominating test — `if not a: … else: <node>`, `if a: <node>`, `if not a: return` followed by <node> all give
+    (a, True); negated comparison operators are stated positively ((`x is None`, False) for `x is not None`)."""
+    from .rules import guards_dominating
+
+    out: Set[Tuple[str, bool]] = set()
+    for t, o in guards_dominating(cfg, node):
+        _atom_facts(t.ast, bool(o), out)
+    return out
